@@ -249,8 +249,13 @@ def _immutable(cfg):
   return new
 
 
+def _push(cfg, items=()):
+  """Stores the argument object itself in the configuration."""
+  cfg.stack = list(cfg.__arguments__.get("stack", [])) + [items]
+
+
 for _n, _f in (("base", _base), ("base2", _base2), ("double", _double), ("add", _add),
-               ("immutable", _immutable)):
+               ("immutable", _immutable), ("push", _push)):
   setattr(FLAGMOD, _n, _f)
 sys.modules["verif_flag_module"] = FLAGMOD
 
@@ -284,14 +289,26 @@ def directive_case(rng, res, dstream, intern, label):
         text = rng.choice(["[0, 0]", "[1, [2]]"]) if name.startswith("lst") else rng.choice(["{'k': 1}", "{'k': 1, 'j': [0]}"])
         dirs.append((f"set:{name}={text}", ("setc", name, text)))
         containers[name] = text
-      elif q < 0.45 and containers:
+      elif q < 0.45 and any(c != "stack" for c in containers):
         # ... and overrides of single elements of a container written earlier
-        name = rng.choice(sorted(containers))
+        name = rng.choice(sorted(c for c in containers if c != "stack"))
         v = rng.randint(10, 19)
         if name.startswith("lst"):
           dirs.append((f"set:{name}[0]={v}", ("setel", name, 0, v)))
         else:
           dirs.append((f"set:{name}['k']={v}", ("setel", name, "k", v)))
+      elif q < 0.5:
+        # a fiddler with a container literal as argument (the same text may occur several times), whose
+        # argument object ends up in the configuration ...
+        text = rng.choice(["[1, 2]", "{'k': 1}"])
+        dirs.append((f"fiddler:push(items={text})", ("push", text)))
+        containers.setdefault("stack", []).append(text)
+      elif q < 0.55 and containers.get("stack"):
+        # ... and an override INSIDE one of the pushed objects (edits that object in place)
+        v = rng.randint(20, 29)
+        i = rng.randrange(len(containers["stack"]))
+        sub = "[0]" if containers["stack"][i].startswith("[") else "['k']"
+        dirs.append((f"set:stack[{i}]{sub}={v}", ("setstack", i, 0 if sub == "[0]" else "k", v)))
       elif q < 0.55:
         dirs.append(("fiddler:double", ("double",)))
       elif q < 0.8:
@@ -335,6 +352,13 @@ def directive_case(rng, res, dstream, intern, label):
         err = "element-of-missing"                    # e.g. after a new base configuration: must be refused
         break
       getattr(exp, d[1])[d[2]] = d[3]
+    elif d[0] == "push":
+      _push(exp, ast.literal_eval(d[1]))             # a fresh object per directive
+    elif d[0] == "setstack":
+      if "stack" not in exp.__arguments__ or d[1] >= len(exp.stack):
+        err = "element-of-missing"
+        break
+      exp.stack[d[1]][d[2]] = d[3]
     elif d[0] == "double":
       _double(exp)
     elif d[0] == "add":
@@ -356,7 +380,7 @@ def directive_case(rng, res, dstream, intern, label):
       return f"(DConfig {g_N(intern(repr(d)))})"
     if d[0] == "config_str":
       return f"(DConfigStr {g_N(intern(repr(d)))})"
-    if d[0] in ("set", "setc", "setel"):
+    if d[0] in ("set", "setc", "setel", "setstack"):
       return f"(DSet {g_N(intern(repr(d)))})"
     return f"(DFiddler {g_N(intern(repr(d)))})"
   if outcome[0] == "ok":
@@ -370,7 +394,7 @@ def directive_case(rng, res, dstream, intern, label):
         want_log = [("base2",)]
       elif d[0] == "config_str":
         want_log = [("base", 7)]
-      elif d[0] not in ("set", "setc", "setel"):
+      elif d[0] not in ("set", "setc", "setel", "setstack", "push"):
         want_log.append(d)
     if [tuple(x) for x in outcome[1].log] != want_log:
       res.failures.append(Failure(None, f"C18 {label}: fiddler log out of order", replay))
